@@ -148,75 +148,92 @@ pub fn explore<M: Model>(m: &M, depth: usize, ctx: &Ctx) -> Acc {
             next: Vec<(u128, Vec<O>)>,
             acc: Acc,
         }
-        let outs: Vec<Out<M::Op>> = frontier
-            .par_chunks(64.max(frontier.len() / 512))
-            .map(|chunk| {
-                let mut o = Out {
-                    next: vec![],
-                    acc: Acc::new(),
-                };
-                for hist in chunk {
-                    let (base, ops) = match crate::fw::catch(|| {
-                        rebuild(m, hist).map(|s| {
-                            let ops = m.enabled(&s);
-                            (s, ops)
-                        })
-                    }) {
-                        Ok(Some(x)) => x,
-                        _ => continue,
+        let mut next = vec![];
+        let mut stop = false;
+        // the frontier is processed in slices so that transient memory stays bounded
+        for slice in frontier.chunks(200_000) {
+            if ctx.over_budget() || crate::fw::rss_gb() > crate::fw::rss_cap_gb() {
+                acc.capped = true;
+                acc.bump("levels_completed", level as u64);
+                stop = true;
+                break;
+            }
+            let outs: Vec<Out<M::Op>> = slice
+                .par_chunks(64.max(slice.len() / 512))
+                .map(|chunk| {
+                    let mut o = Out {
+                        next: vec![],
+                        acc: Acc::new(),
                     };
-                    for op in ops {
-                        let mut h2 = hist.clone();
-                        h2.push(op.clone());
-                        let r = crate::fw::catch(|| {
-                            let mut s = match m.clone_state(&base) {
-                                Some(s) => s,
-                                None => rebuild(m, hist).expect("prefix replays"),
-                            };
-                            let r = m.apply(&mut s, &op);
-                            match r {
-                                Ok(()) => {
-                                    let mut c = Canon::new();
-                                    m.canon(&s, &mut c);
-                                    Ok((c.key(), m.outcome(&s, &op)))
+                    for hist in chunk {
+                        let (base, ops) = match crate::fw::catch(|| {
+                            rebuild(m, hist).map(|s| {
+                                let ops = m.enabled(&s);
+                                (s, ops)
+                            })
+                        }) {
+                            Ok(Some(x)) => x,
+                            _ => continue,
+                        };
+                        for op in ops {
+                            let r = crate::fw::catch(|| {
+                                let mut s = match m.clone_state(&base) {
+                                    Some(s) => s,
+                                    None => rebuild(m, hist).expect("prefix replays"),
+                                };
+                                let r = m.apply(&mut s, &op);
+                                match r {
+                                    Ok(()) => {
+                                        let mut c = Canon::new();
+                                        m.canon(&s, &mut c);
+                                        Ok((c.key(), m.outcome(&s, &op)))
+                                    }
+                                    Err(e) => Err(e),
                                 }
-                                Err(e) => Err(e),
+                            });
+                            o.acc.transitions += 1;
+                            let h2 = || {
+                                let mut h2 = hist.clone();
+                                h2.push(op.clone());
+                                h2
+                            };
+                            match r {
+                                Ok(Ok((k, out))) => {
+                                    o.acc.outcome(&out);
+                                    o.acc.distinct(&(k, &out));
+                                    o.next.push((k, h2()));
+                                }
+                                Ok(Err((key, msg))) => o.acc.violation(Violation {
+                                    key,
+                                    msg,
+                                    case: case_of(m, &h2()),
+                                }),
+                                Err(p) => o.acc.violation(Violation {
+                                    key: "panic".into(),
+                                    msg: format!("panic: {p}"),
+                                    case: case_of(m, &h2()),
+                                }),
                             }
-                        });
-                        o.acc.transitions += 1;
-                        match r {
-                            Ok(Ok((k, out))) => {
-                                o.acc.outcome(&out);
-                                o.acc.distinct(&(k, &out));
-                                o.next.push((k, h2));
-                            }
-                            Ok(Err((key, msg))) => o.acc.violation(Violation {
-                                key,
-                                msg,
-                                case: case_of(m, &h2),
-                            }),
-                            Err(p) => o.acc.violation(Violation {
-                                key: "panic".into(),
-                                msg: format!("panic: {p}"),
-                                case: case_of(m, &h2),
-                            }),
                         }
                     }
-                }
-                o
-            })
-            .collect();
-        let mut next = vec![];
-        for o in outs {
-            acc.merge(o.acc);
-            for (k, h) in o.next {
-                if seen.insert(k) {
-                    if acc.samples.len() < 6 && (next.len() % 997 == 3 || level + 1 == depth) {
-                        acc.samples.push(case_of(m, &h));
+                    o
+                })
+                .collect();
+            for o in outs {
+                acc.merge(o.acc);
+                for (k, h) in o.next {
+                    if seen.insert(k) {
+                        if acc.samples.len() < 6 && (next.len() % 997 == 3 || level + 1 == depth) {
+                            acc.samples.push(case_of(m, &h));
+                        }
+                        next.push(h);
                     }
-                    next.push(h);
                 }
             }
+        }
+        if stop {
+            acc.states += next.len() as u64;
+            break;
         }
         acc.states += next.len() as u64;
         acc.bump(&format!("new_states_depth_{}", level + 1), next.len() as u64);
